@@ -103,6 +103,13 @@ def upper_strategy(draw):
     else:
         c = draw(procs.process_case(kinds=("ideal-iso", "ideal-noniso"), models=("UNIQUAC",), removal=(1e-5, 0.1), max_steps=5,
                                     builtin_share=0.0, uq_family="symmetric"))
+    if draw(st.integers(0, 2)) == 0:  # experiments stated in SI / GPU, feed sometimes exactly at an experiment temperature
+        c["membrane"] = draw(gen.membrane(3, draw(st.sampled_from([("SI",), ("GPU",)]))))
+        if draw(st.booleans()):
+            c["T"] = c["membrane"]["e1"][0]["T"]
+            c["membrane"]["e2"][0]["T"] = c["T"]
+            if c["perm"]["mode"] == "temperature":
+                c["perm"] = dict(c["perm"], T=min(c["perm"]["T"], c["T"]))
     return c
 
 
@@ -154,6 +161,15 @@ def check_upper(case):
             raise Discard("exit flip between twins")
         if is_raised(j):
             raise Discard("solver raised %s" % j.type)
+        # only ONE of the two optional permeances supplied: first component's for the original, second component's for the twin
+        one = build.permeance(0.0123)
+        ja = call(pv.calculate_partial_fluxes, composition=comp, first_component_permeance=one, **kw)
+        jb = call(pv2.calculate_partial_fluxes, composition=comp2, second_component_permeance=one, **kw)
+        if not is_raised(ja) and not is_raised(jb) and e1 == e2:
+            for i in (0, 1):
+                require(abs(float(ja[i]) - float(jb[1 - i])) <= 1e-6 * (abs(float(ja[0])) + abs(float(ja[1]))),
+                        "with only one permeance argument supplied: fluxes %r, relabelled %r (expected exchanged)",
+                        (float(ja[0]), float(ja[1])), (float(jb[0]), float(jb[1])))
         flip = e1 != e2
         amp = 1.0
         if not flip:
@@ -208,12 +224,16 @@ def check_upper(case):
         m2, e2 = _traced(pv2, lambda: procs.run(case, s2, dt, cond_spec=dict(cond, x=1.0 - cond["x"])))
         def borderline(model):
             """The look-ahead state after the last reported step sits on the validity boundary to rounding (legitimate flip)."""
-            k = len(model.feed_mass) - 1
-            mk, wk = float(model.feed_mass[k]), model.feed_compositions[k].p
-            d1 = float(model.partial_fluxes[k][0]) * cond["area"] * dt
-            d2 = float(model.partial_fluxes[k][1]) * cond["area"] * dt
-            rem = (mk * wk - d1, mk * (1 - wk) - d2, mk - d1 - d2)
-            return any(abs(r) <= 1e-9 * float(model.feed_mass[0]) for r in rem)
+            if min(float(t_) for t_ in model.feed_temperature) < 150.0:
+                return True  # run-away self-cooling: vapour pressures underflow, which twin trips a validator first is rounding
+            for k in range(len(model.feed_mass)):  # the twin may have raised at any step
+                mk, wk = float(model.feed_mass[k]), model.feed_compositions[k].p
+                d1 = float(model.partial_fluxes[k][0]) * cond["area"] * dt
+                d2 = float(model.partial_fluxes[k][1]) * cond["area"] * dt
+                rem = (mk * wk - d1, mk * (1 - wk) - d2, mk - d1 - d2)
+                if any(abs(r) <= 1e-9 * float(model.feed_mass[0]) for r in rem):
+                    return True
+            return False
 
         returned = m2 if is_raised(m) else m
         if is_raised(m) != is_raised(m2) and len(e1) == len(e2) and e1[:max(len(e1) - 1, 0)] == e2[:max(len(e2) - 1, 0)] \
